@@ -67,6 +67,10 @@ def handleStage2 : Handler
     let n ← parseNat n; let g ← parseNat g; let e ← parseNat e
     if n % 2 = 0 ∨ n < 3 ∨ e ≥ 2 ^ 64 then none else
     some (match expModn (fun a b => a * b % n) (1 % n) (g % n) e with | none => "panic" | some r => toString r)
+  | ["s2_expmodn_large", n, g, e] => do
+    let n ← parseNat n; let g ← parseNat g; let e ← parseNat e
+    if n % 2 = 0 ∨ n < 3 ∨ e ≥ 2 ^ 1024 then none else
+    some (match expModnLarge (fun a b => a * b % n) (1 % n) (g % n) e with | none => "panic" | some r => toString r)
   | ["s2_cheb", n, v, k] => do
     let n ← parseNat n; let v ← parseNat v; let k ← parseNat k
     if n % 2 = 0 ∨ n < 3 ∨ k ≥ 2 ^ 64 then none else
